@@ -10,19 +10,19 @@ OTHER = ("decides named structural clauses that are genuine necessary conditions
          "type-checked source and SSA form of /repo's working tree; the value-level remainder of the behaviour is not decided: ")
 
 checks = {
- "C01": ("ROUND/FLOOR-NOBIAS (altitude and lon/lat quantisation floors, no bias), MAPORDER + ELEMENTWISE (one output per input, in order, no state carried between points), KIND-LAYOUT (each index labelled with its own axis' zoom), WRAPPER (spatial form = extended form with h=v), GUARD (zoom 0..35, nil points)",
+ "C01": ("ROUND/FLOOR-NOBIAS (altitude and lon/lat quantisation floors, no bias), FOLD-EXACT (lon = 180 folded by an exact comparison), MAPORDER + ELEMENTWISE (one output per input, in order, through any number of element-wise stages; no state carried between points, neither in a loop-carried value nor in a local variable written for one point and read for the next), KIND-LAYOUT (each index labelled with its own axis' zoom), WRAPPER (spatial form = extended form with h=v), GUARD (zoom 0..35, nil points)",
          "not decided: Mercator formula correctness, boundary behaviour at lon=+-180 / lat limit, 0 <= x,y < 2^h (float facts)",
          "component-kind inference + rounding-mode classification + scenario path analysis on SSA"),
- "C03": ("ROUND (vertical zoom-out floors), DISTINCT (every success return de-duplicated), KIND-CALL/KIND-LAYOUT (axes wired independently, every output field at the zoom of its own axis), AXISSYM (x and y bounds isomorphic), NOCLAMP (no index clamp / range check in the per-axis zoom functions), WRAPPER, GUARD",
+ "C03": ("ROUND (vertical zoom-out floors), DISTINCT (every success return de-duplicated), KIND-CALL/KIND-LAYOUT (axes wired independently, every output field at the zoom of its own axis), AXISSYM (x and y bounds isomorphic), NOCLAMP (no index clamp / range check in the per-axis zoom functions; no constant vertical ID emitted), narrowing of an x/y/f index to fewer than 64 bits, WRAPPER, GUARD",
          "not decided: the child range is exactly [i*2^d,(i+1)*2^d-1] and the 4^dh*2^dv count (value arithmetic)",
          "component-kind inference, rounding-mode classification, distinctness lattice, sibling isomorphism on SSA"),
- "C04": ("ROUND (ancestor floors below ground), DISTINCT, ELIGIBILITY (3x3 ordering enumeration: pass-through iff coarser on some axis), KIND rules, WRAPPER, GUARD",
+ "C04": ("ROUND (ancestor floors below ground), DISTINCT, ELIGIBILITY (3x3 ordering enumeration: pass-through iff coarser on some axis), UNIT-ZOOM (the unit zooms of the division are final per-axis maxima over all inputs: not a running maximum still in use, not one element's zooms), NOSKIP (no input, unit or group dropped), CACHE-KEY, KIND rules, WRAPPER, GUARD",
          "not decided: region equality, density threshold, idempotence (value-level)",
          "rounding-mode classification + finite ordering enumeration over the CFG"),
  "C05": ("MINSEL/REUSE (both IDs aligned to the per-axis minimum zoom with ChangeExtendedSpatialIdsZoom), EXISTS-LOOP (array form = disjunction, false for empty lists), EVERY-ELEMENT/TYPESTATE (every ID inserted/queried, empty tree never queried), RANGEUSE (both key bounds consumed: known finding D8), ERRUSED, NOPARTIAL, GUARD",
          "not decided: exactness/symmetry of the third-party radix-tree prefix search, agreement of the two implementations",
          "ordering enumeration, must-pass-through and typestate path analysis, def-use error discipline"),
- "C06": ("DISTINCT, INCLUDES (end-point voxels in every result), EARLY-SINGLE, PASSTHRU (zooms and midpoint reporting through the recursion), WRAPPER, GUARD",
+ "C06": ("DISTINCT, INCLUDES (end-point voxels in every result), EARLY-SINGLE, PASSTHRU (zooms and midpoint reporting through the recursion), THRESHOLD-AXIS (each termination threshold depends on the zoom of one axis only), WRAPPER, GUARD",
          "NOT decided: absence of gaps, 26-connectivity, 'only voxels the segment touches', termination thresholds (float midpoints vs voxel sizes)",
          "accumulator/def-use analysis, distinctness lattice, call-graph value identity"),
  "C07": ("KIND-LAYOUT (hZoom/x/y/vZoom/f with zooms copied), AXISSYM (x and y wrapped by isomorphic computations and conditions), NOWRAP-F (vertical index exactly f+dv), RANGE (symbolic interval analysis: printed x,y in [0, 2^h-1] on every path), GUARD (malformed ID -> empty ID)",
@@ -34,33 +34,33 @@ checks = {
  "C09": ("ROUND-AGREE (every vertical rounding site in point lookup, zoom change, merge ancestor, key scaling is floor), MINSEL/REUSE (overlap aligns with the zoom change itself at the per-axis minimum), ELIGIBILITY",
          "not decided: zoom-in-then-out identity and merge-of-all-descendants identity as value equalities",
          "rounding-mode agreement over call-graph closures"),
- "C10": ("KIND-LAYOUT/KIND-STORE/KIND-CALL (parser, printer, FieldParams and both notation permutations agree position by position), MAPORDER, ELEMENTWISE, MAXSEL (every zoom change of the expansion targets max(h,v); the coarser axis is raised), NOCLAMP, GUARD (arity)",
+ "C10": ("KIND-LAYOUT/KIND-STORE/KIND-CALL (parser, printer, FieldParams and both notation permutations agree position by position), MAPORDER, ELEMENTWISE, MAXSEL (every zoom change of the expansion targets max(h,v); no ordering loses the voxel), NOCLAMP, narrowing index conversions, ID text used as a strings.Trim cut set, GUARD (arity)",
          "not decided: 4^d / 2^d count and region equality of the expansion",
          "component-kind/layout inference + ordering enumeration"),
  "C11": ("KIND-CALL (groups carry the request's zooms/height/base parameters; role wiring of HorizontalZoom/VerticalZoom), DISTINCT-PAIR (miss-then-insert on the cross-ID map), PER-ITERATION (fresh scratch lists), ELEMENTWISE (no cache carried between IDs), NOFLOAT (integer-only encoder/decoder), REUSE, ERRUSED, GUARD (zoom domains, arity, integer fields, maxHeight<minHeight)",
          "NOT decided: that the encoder is the bit interleaving and the decoder its inverse (loop-carried bit arithmetic)",
          "component-kind inference, dominance-based guard analysis, scenario path analysis"),
- "C12": ("ASHIFT/ROUND (all scaling is a signed shift = floor), RANGEUSE, INTERVAL (existence tests accept exactly [-2^z,2^z-1] / [0,2^z-1]), OUTRANGE (both returned bounds range-checked), UPPER-BOUND-FORM (scale(i+1)-1 guarded or clamped), NOPARTIAL, KIND-LAYOUT (F vs key scale)",
-         "NOT decided: the covering property itself (integer interval arithmetic over five unbounded parameters); note: an independent brute-force comparison reported by a sub-agent suggests ConvertZToMinMaxAltitudekey loses altitude for unaligned offsets when outputZoom < zBaseExponent - outside what this check decides",
+ "C12": ("ASHIFT/ROUND (all scaling is a signed shift = floor), RANGEUSE, INTERVAL (existence tests accept exactly [-2^z,2^z-1] / [0,2^z-1]), OUTRANGE (both returned bounds range-checked), UPPER-BOUND-FORM (scale(i+1)-1 only where the shift is known positive: found D11, fixed; D12 known finding), NOPARTIAL, KIND-LAYOUT (F vs key scale)",
+         "NOT decided: the covering property itself (integer interval arithmetic over five unbounded parameters)",
          "rounding-mode classification + bound-expression shape analysis on SSA"),
- "C13": ("KIND-STORE/KIND-CALL (hZoom,x,y copied field for field, vZoom = request's), RANGE-LOOP (emitted range = the two results of this tile's range call, value identity), ELEMENTWISE, COMPOSE, DISTINCT, NOPARTIAL, OUTRANGE, MAXSEL, GUARD (tile zooms two-sided)",
+ "C13": ("KIND-STORE/KIND-CALL (hZoom,x,y copied field for field, vZoom = request's), RANGE-LOOP (emitted range = the two results of this tile's range call, value identity, also through a helper that hands the range on), CACHE-KEY (a memo of the range call is keyed by every varying argument), ELEMENTWISE, COMPOSE, DISTINCT, NOPARTIAL, OUTRANGE, MAXSEL, GUARD (tile zooms two-sided)",
          "not decided: that the emitted range is the covering range (C12's undecided part)",
          "component-kind inference + loop-bound value identity + call-graph composition"),
- "C14": ("INCLUDES (line IDs in both modes), FILTER-SUBSET (measured additions are current candidates behind distance < radius itself), LAYERFIT (layer counts = max fit over all line voxels), NOORDERDEP, DISTINCT, GUARD (negative radius, zooms, nil points)",
+ "C14": ("INCLUDES (line IDs in every result variant: Unique/Union/Concat/appends flattened), FILTER-SUBSET (measured additions are current candidates behind distance < radius itself), LAYERFIT (layer counts = max fit over all line voxels), NOORDERDEP, DISTINCT, GUARD (negative radius, zooms, nil points)",
          "NOT decided: the geometric distance bound, radius-0 identity, termination of the layer fit",
          "value-identity and dominance analysis on SSA + ordering enumeration"),
- "C15": ("GUARD table (94 rows, scenario path analysis: interval / nil / arity / parse-failure / option / order facts), ERRUSED (no strconv error of caller text dropped), PARSE-BASE (decimal only), FIELDGUARD (who writes Point fields, rounding direction of latitude, limit test dominates store), NOPARTIAL",
+ "C15": ("GUARD table (94 rows, scenario path analysis: interval / nil / arity / parse-failure / option / order / empty-list facts; a success return reached only past tests of the argument that the analysis cannot evaluate is reported as undecided, one reached without any such test as violated), ERRUSED (no strconv error of caller text dropped), PARSE-BASE (decimal only), FIELDGUARD (who writes Point fields, rounding direction of latitude, limit test dominates store), NOPARTIAL",
          "not decided: the < 1e-10 magnitude of the latitude cut; panics inside third-party code for valid inputs; zoom fields inside well-formed IDs (excluded by the property's quantifier)",
          "abstract scenario propagation over CFGs with recursive callee summaries (no code executed, no solver)"),
- "C16": ("EFFECT-PARAM (no exported function writes caller data), NOORDERDEP (no positional use of map-ordered slices), MAPLOOP-COMMUTATIVE, DISTINCT / DISTINCT-PAIR rows, NONDET (no other nondeterminism source reachable)",
+ "C16": ("EFFECT-PARAM (no exported function writes caller data; type-filtered write sets), UNIT-ZOOM and NOSKIP (merge result independent of input order), NOORDERDEP (no positional use of map-ordered slices), MAPLOOP-COMMUTATIVE, DISTINCT / DISTINCT-PAIR rows, NONDET (no other nondeterminism source reachable)",
          "NOT decided: invariance of the result set under permutation / duplication of the input list in general (value-level confluence)",
          "interprocedural effect analysis + map-order taint"),
  "C18": ("PASSTHRU (altitude same value end to end; x/y exactly the transform's results), MAPORDER, ELEMENTWISE, ERRUSED (Safe transform error tested and mapped to the conversion error), CRS-ARGS (direction)",
          "NOT decided: Mercator numerics, 2e-10 round trip, agreement with the grid constants",
          "value-identity analysis on SSA"),
- "C20": ("ASHIFT (signed shift = floor), EMPTYGUARD, EFFECT-PARAM (helpers leave arguments alone), SETOP-SHAPE (total scans, membership polarity), MATMUL-INDEX",
+ "C20": ("ASHIFT (signed shift = floor), EMPTYGUARD, EFFECT-PARAM (helpers leave arguments alone), SETOP-SHAPE (the set-expression term derived from each helper - keys(set{..}), filter(P, hit|miss, set{..}), contains(P, x) - equals the definition of the operation it is named after; early exits are violations), MATMUL-INDEX",
          "NOT decided: Max/Min boundingness, set laws as value equalities, Combinations, vector/quaternion identities",
-         "shape recognition on SSA + effect analysis"),
+         "set-expression abstract domain over SSA + scenario path analysis + effect analysis"),
 }
 
 manifest = {
@@ -82,7 +82,7 @@ manifest = {
   {"property_id": "C02", "reason": "every clause is a fact about float64 results of atan/sinh/Pow and a 1e-10 truncation (corner coordinates, centre = midpoint, centre->ID round trip, shared faces coincide); no sound static argument in reach bounds floating-point error per zoom; its structural parts (option dispatch, zoom check, notation wrapper) are decided under C15/C10 (DESIGN.md section 6)"},
   {"property_id": "C17", "reason": "contiguity, clamping and coverage of the float binary subdivision are value facts of a comparison repeated zoom times; its only structural clause (maxHeight < minHeight is an error in both directions) is checked as guard-table rows under C15/C11 and is not enough to claim C17 (DESIGN.md section 6)"}
  ],
- "notes": "Static analysis only (DESIGN.md). Every check is one sidcheck process (about 3-12 s) that loads /repo's current working tree, type-checks it, builds SSA and decides the property's rules; exit 0 = all obligations discharged (known findings printed as KNOWN-FINDING), exit 1 + VIOLATION line = a rule instance is violated or can no longer be read, exit 2 = infrastructure failure (no verdict). known_findings.json lists recorded and fixed defects. seeded/ holds confirmed property-breaking changes written by independent sub-agents; tools/run_seeded.py replays them."
+ "notes": "Static analysis only (DESIGN.md). Every check is one sidcheck process (about 3-12 s) that loads /repo's current working tree, type-checks it, builds SSA and decides the property's rules; exit 0 = no rule instance violated (known findings printed as KNOWN-FINDING; clauses the analysis could not decide on this tree printed as UNDECIDED and counted in the evidence, never an alarm), exit 1 + VIOLATION line = positive evidence of a construct that breaks a decided clause, exit 2 = infrastructure failure (no verdict). known_findings.json lists recorded and fixed defects. seeded/ holds confirmed property-breaking changes and behaviour-preserving refactorings written by independent sub-agents; tools/run_seeded.py replays them (DESIGN.md sections 9.5, 10.5)."
 }
 
 for pid in sorted(list(checks.keys()) + ["C19"]):
@@ -108,7 +108,7 @@ for pid in sorted(list(checks.keys()) + ["C19"]):
      "replay_cmd_template": "cat {path}",
      "engine": "sidcheck",
      "level_claimed": {"category": "other", "text": OTHER + "decided = " + decided + "; " + notdec, "design_ref": "DESIGN.md section 4 " + pid},
-     "level_note": "trusted: go/types, go/ssa, x/tools v0.29.0, the frozen role / guard tables transcribed from the doc comments; rules report only from known-bad or unreadable shapes at counted obligation sites (vacuity floors in expect/floors.json, canaries in checker/canary)",
+     "level_note": "trusted: go/types, go/ssa, x/tools v0.29.0, the frozen role / guard tables transcribed from the doc comments; rules alarm only on positive evidence of a bad construct; unrecognised constructions are reported as undecided (coverage floors in expect/floors.json are warnings, canaries in checker/canary keep every rule able to fire)",
      "technique": "static analysis: " + tech
     })
 
